@@ -359,7 +359,15 @@ SV_TEMPLATES = [
 def token_level(ctx):
     """SyntaxTree::get_origin(token) = origin(first byte)."""
     cases = []
-    for i, t in enumerate(SV_TEMPLATES):
+    # tokens that start in one piece of the map and end in the next (a name or number written in the file and completed by
+    # a macro expansion), in texts with so many pieces that the map is a tree of several levels: the token's origin is
+    # that of its FIRST byte, whichever piece a wider probe would meet first
+    straddle = []
+    for n in (3, 14, 40, 150):
+        t = "".join("`define T%d a%d\n" % (i, i) for i in range(n)) + "`define H ff\nmodule m;\n"
+        t += "".join("wire x%d`T%d ;\nlocalparam p%d = 8'h`H ;\n" % (i, i, i) for i in range(n)) + "endmodule\n"
+        straddle.append(t)
+    for i, t in enumerate(SV_TEMPLATES + straddle):
         c = Case("t%d" % i)
         c.add("file", hx("inc.svh"), hx("wire inc_w;\n"))
         c.add("want", "text", "origins", "tokorg")
@@ -386,7 +394,7 @@ def token_level(ctx):
                 bad = (c.id, "token at %d: get_origin=%s origin(first byte)=%s" % (off, v, exp))
     if bad:
         rp = write_replay(ctx, "tok-" + sha(bad[1])[:8], {"property": "C03", "case": bad[0], "why": bad[1],
-                                                          "templates": SV_TEMPLATES})
+                                                          "templates": SV_TEMPLATES + straddle})
         ctx.viol.append(Violation("get_origin differs from the origin of the token's first byte: " + bad[1], rp))
     ctx.obl("search-oracle:get_origin = origin(first byte)", "oracle", bad is None, bad[1] if bad else "")
 
